@@ -813,9 +813,9 @@ def run(ctx):
     def q_key(v):
         return (1, 0) if v is None else (0, v)
 
-    for c in range(40 * scale):
-        big = rng.random() < (0.2 if quick else 0.35)
-        n = rng.randrange(17, 48 if quick else 130) if big else rng.randrange(2, 13)
+    for c in range(320 if quick else 1600):
+        big = rng.random() < (0.2 if quick else 0.3)
+        n = rng.randrange(17, 48 if quick else 100) if big else rng.randrange(2, 13)
         emb = gen_emb(rng, 0.3)
         d = 1 if emb is not None else rng.choice([1, 1, 2, 3])
         n_st = n - ((emb[0] - 1) * emb[1] if emb else 0)
@@ -836,6 +836,8 @@ def run(ctx):
         nC = len(comp)
         metric = rng.choice(METRICS)
         kA = min(n_st - 1, rng.choice([1, 1, 2, 3, rng.randrange(1, n_st)]))
+        if n_st > 24:
+            kA = min(kA, 4)      # (the model's matrix is a chain of closures: cost ~ (n k)^2 n)
         net = rng.random() < 0.4 and nC >= 2
         cls = "RecurrenceNetwork" if net else "RecurrencePlot"
         kw = dict(metric=metric, adaptive_neighborhood_size=kA, missing_values=mv, silence_level=3)
@@ -932,7 +934,7 @@ def run(ctx):
         if net and nC < n_st:
             continue      # setters of a network with deleted states: known finding (shared N)
         # the setter on the same object with a caller-chosen processing order
-        kB = rng.randrange(0, n_st + 2)
+        kB = rng.randrange(0, n_st + 2) if n_st <= 24 else rng.randrange(0, 5)
         order = list(range(n_st))
         rng.shuffle(order)
         try:
